@@ -209,13 +209,13 @@ package geometry
 //@   ensures result == 4
 //@ func Rect.PointAt
 //@   props C18
-//@   dead cover.ret5
+//@   dead ret "return []Point{}[0]$"#1
 //@   arith order
 //@   requires 0 <= index && index <= 4
 //@   ensures result == rectPt(rect, index)
 //@ func Rect.SegmentAt
 //@   props C18 C04 C02 C03 C08 C01 C12
-//@   dead cover.ret4
+//@   dead ret "return []Segment{}[0]$"#1
 //@   arith order
 //@   requires 0 <= index && index < 4
 //@   ensures result == rectSeg(rect, index)
